@@ -276,7 +276,7 @@ pub fn run(ctx: &mut Ctx) {
     let quick = ctx.quick();
     let sigma_n = ctx.tier.pick(4, 5);
     let max_comp_len = ctx.tier.pick(11, 13);
-    ctx.meta("rule", "cases: (input, configuration, read schedule); inputs = Σ* up to length n, documents of T∘E, their truncations at every byte and single-byte corruptions, two documents > 64 KiB; for inputs up to the composition bound ALL 2^(len-1) compositions into read() results x 14 capacities (0,1,2,3,4,7,8,15,16,17,len-1,len,len+1,default); longer inputs: schedules with <= 2 short reads x capacities; with end-of-stream closing off: Ok(0) pauses at every subset of (up to 8) tag boundaries x {default, 16, chunk 3, capacity 0 with 1-byte reads}. Oracle: differential - items, offsets and the first error (all fields) equal the slice parse of the same bytes and configuration. Non-trivial: schedules with >= 1 short read or pause.");
+    ctx.meta("rule", "cases: (input, configuration, read schedule); inputs = Σ* up to length n, documents of T∘E, their truncations at every byte and single-byte corruptions, two documents > 64 KiB; for inputs up to the composition bound ALL 2^(len-1) compositions into read() results x 14 capacities (0,1,2,3,4,7,8,15,16,17,len-1,len,len+1,default); longer inputs: schedules with <= 2 short reads and uniform short reads (every read 1,2,3,5,7,11,13 bytes) x capacities; documents with 16-byte headers (8-byte ids, 8-byte size fields, known and unknown ids) and all their truncations; three documents > 64 KiB (large payload, many small elements, long headers across the buffer boundary); with end-of-stream closing off: a temporary end of file (the source answers Ok(0) until the caller has seen None, then resumes) at every subset of (up to 8) tag boundaries incl. before the first byte x {default, 16, chunk 3, capacity 0 with 1-byte reads}. Oracle: differential - items, offsets and the first error (all fields) equal the slice parse of the same bytes and configuration. Non-trivial: schedules with >= 1 short read or pause.");
     ctx.meta("bounds", &format!("Σ* length <= {}; all compositions for inputs <= {} bytes; <= 2 deviations beyond", sigma_n, max_comp_len));
     ctx.meta("assumptions", "Read implementations that return more than requested or lie about lengths are out of scope");
     for c in ["pauses_seen_as_none_by_the_caller", "long_header_documents", "first_read_shorter_than_a_header", "capacity_below_16", "input_larger_than_capacity(compaction)", "temporary_eof_pauses", "big_inputs(growth)"] {
